@@ -358,10 +358,8 @@ def _h_memcpy(eng, p, args, kw, node):
     if isinstance(dst, Ptr) and dst.region in p.mem and isinstance(src, Ptr) and src.region in p.mem:
         i = z3.Int(f"mc!{next(eng.counter)}")
         old, sm, d0, s0 = p.mem[dst.region], p.mem[src.region], dst.off, src.off
-        new = z3.Const(f"mem_after_memcpy!{next(eng.counter)}", cy.MemSort)
-        p.axioms.append(z3.ForAll([i], z3.Select(new, i) == z3.If(z3.And(i >= d0, i < d0 + nn), z3.Select(sm, s0 + (i - d0)),
-                                                                  z3.Select(old, i))))
-        p.mem[dst.region] = new
+        # memory after the copy as a lambda term: selecting from it beta-reduces, no quantified axiom is needed
+        p.mem[dst.region] = z3.Lambda([i], z3.If(z3.And(i >= d0, i < d0 + nn), z3.Select(sm, s0 + (i - d0)), z3.Select(old, i)))
     return [(p, NONE)]
 
 
